@@ -290,6 +290,9 @@ type SelStep struct {
 	AdvanceMS int     `json:"advance_ms"`
 	Mode      string  `json:"mode,omitempty"` // scripted strategy: decision mode
 	Conf      float64 `json:"conf,omitempty"` // scripted strategy: confidence
+	// Stamp (scripted strategy): the strategy stamps its proposal with a time of its own (another time base, leaping an
+	// hour per step), as a strategy may that copies the time its features were extracted
+	Stamp bool `json:"stamp,omitempty"`
 	// rule strategy: features
 	WType   int     `json:"wtype,omitempty"`
 	Samples int     `json:"samples,omitempty"`
@@ -341,12 +344,19 @@ func genB(t *rapid.T) CaseB {
 			c.Allowed = append(c.Allowed, m)
 		}
 	}
+	if len(c.Allowed) > 0 && len(c.Allowed) < 3 && rapid.IntRange(0, 2).Draw(t, "repeatAllowed") == 0 {
+		// a list merged from several sources: entries repeated, still a proper subset
+		for k := rapid.IntRange(1, 3).Draw(t, "nrepeat"); k > 0; k-- {
+			c.Allowed = append(c.Allowed, c.Allowed[rapid.IntRange(0, len(c.Allowed)-1).Draw(t, "repeat")])
+		}
+	}
 	n := rapid.IntRange(2, 40).Draw(t, "nsteps")
 	for i := 0; i < n; i++ {
 		s := SelStep{AdvanceMS: rapid.SampledFrom([]int{0, 1, 50, 99, 100, 101, 500, 999, 1000, 1001, 29999, 30000, 60000}).Draw(t, "adv")}
 		if c.Scripted {
 			s.Mode = rapid.SampledFrom(modes).Draw(t, "mode")
 			s.Conf = rapid.SampledFrom([]float64{0, 0.29, 0.3, 0.5, 0.69, 0.7, 0.71, 0.9, 1}).Draw(t, "conf")
+			s.Stamp = rapid.IntRange(0, 3).Draw(t, "stamp") == 0
 		} else {
 			s.WType = rapid.IntRange(0, 5).Draw(t, "wtype")
 			s.Samples = rapid.SampledFrom([]int{0, 1, 9, 10, 49, 50, 99, 100, 999, 1000, 100000}).Draw(t, "samples")
@@ -413,6 +423,9 @@ func runB(c CaseB) vt.Verdict {
 		wt := rebalancing.WorkloadType(s.WType)
 		if c.Scripted {
 			sc.next = rebalancing.Decision{Mode: rebalancing.Mode(s.Mode), Confidence: s.Conf, Reason: "scripted"}
+			if s.Stamp {
+				sc.next.Timestamp = time.Unix(1_800_000_000, 0).Add(time.Duration(i+1) * time.Hour)
+			}
 		} else {
 			feat = rebalancing.WorkloadFeatures{DeleteRatio: s.Del, WriteRatio: s.Wr, ReadRatio: 1 - s.Del - s.Wr, OperationRate: s.Rate, BurstDetected: s.Burst,
 				FileSize: uint64(s.FileMB) * 1024 * 1024, WindowDuration: time.Minute, SampleSize: s.Samples, ExtractedAt: clk.t}
